@@ -458,3 +458,41 @@ package checkers
 //@   astvalid
 //@   requires c != nil && ctxOK(c.ctx)
 //@   call warnCond#1 requires @claim-always-false arg1 != nil && arg1.Op == token.LAND && typeIs(unparen(arg1.X), "*ast.BinaryExpr") && typeIs(unparen(arg1.Y), "*ast.BinaryExpr") && alwaysFalsePair(c.ctx, cast(unparen(arg1.X), "*ast.BinaryExpr"), cast(unparen(arg1.Y), "*ast.BinaryExpr"))
+
+// `if x == nil { return x }`: the returned expression is the tested one, it is side-effect free, the comparison is against
+// the predeclared nil, and the return is the first and only statement of the branch
+//@ func (*nilValReturnChecker).VisitStmt
+//@   prop C12
+//@   nosafety node shapes are the subject of the C01 sweep
+//@   astvalid
+//@   requires c != nil && ctxOK(c.ctx)
+//@   call (*nilValReturnChecker).warn requires @claim-returned-value-is-nil typeIs(stmt, "*ast.IfStmt") && len(cast(stmt, "*ast.IfStmt").Body.List) == 1 && cast(stmt, "*ast.IfStmt").Body.List[0] == arg1 && typeIs(arg1, "*ast.ReturnStmt") && typeIs(cast(stmt, "*ast.IfStmt").Cond, "*ast.BinaryExpr") && cast(cast(stmt, "*ast.IfStmt").Cond, "*ast.BinaryExpr").Op == token.EQL && cast(cast(stmt, "*ast.IfStmt").Cond, "*ast.BinaryExpr").X == arg2 && sideEffectFree(c.ctx.TypesInfo, arg2) && tvIsNil(c.ctx.TypesInfo.Types[cast(cast(stmt, "*ast.IfStmt").Cond, "*ast.BinaryExpr").Y]) && (exists k int :: 0 <= k && k < len(cast(arg1, "*ast.ReturnStmt").Results) && astEq(arg2, cast(arg1, "*ast.ReturnStmt").Results[k]))
+
+// dupSubExpr: the two operands are the same value - one side-effect-free expression written twice
+//@ func (*dupSubExprChecker).checkBinaryExpr
+//@   prop C12
+//@   nosafety node shapes are the subject of the C01 sweep
+//@   astvalid
+//@   requires c != nil && ctxOK(c.ctx)
+//@   call (*dupSubExprChecker).warn requires @claim-operands-are-the-same-value arg1 == expr && sideEffectFree(c.ctx.TypesInfo, expr) && astEq(expr.X, expr.Y)
+
+// caseOrder: a case is reported as unreachable only when its type implements the interface of a case listed before it,
+// and never for `case nil`
+//@ spec ifaceOfCase(ctx *linter.CheckerContext, n ast.Node) types.Type = typeUnderlying(typeOfSpec(ctx, n))
+//@ func (*caseOrderChecker).checkTypeSwitch
+//@   prop C12
+//@   nosafety node shapes are the subject of the C01 sweep
+//@   astvalid
+//@   requires c != nil && ctxOK(c.ctx)
+//@   loop 1 invariant @seen-cases-are-interfaces forall k int :: (0 <= k && k < len(ifaces)) ==> (typeIs(ifaceOfCase(c.ctx, ifaces[k].node), "*types.Interface") && ifaces[k].typ == cast(ifaceOfCase(c.ctx, ifaces[k].node), "*types.Interface"))
+//@   loop 2 invariant @seen-cases-are-interfaces forall k int :: (0 <= k && k < len(ifaces)) ==> (typeIs(ifaceOfCase(c.ctx, ifaces[k].node), "*types.Interface") && ifaces[k].typ == cast(ifaceOfCase(c.ctx, ifaces[k].node), "*types.Interface"))
+//@   loop 3 invariant @seen-cases-are-interfaces forall k int :: (0 <= k && k < len(ifaces)) ==> (typeIs(ifaceOfCase(c.ctx, ifaces[k].node), "*types.Interface") && ifaces[k].typ == cast(ifaceOfCase(c.ctx, ifaces[k].node), "*types.Interface"))
+//@   call warnTypeSwitch requires @claim-case-is-shadowed-by-an-earlier-interface-case typesImplements(typ, iface.typ) && !(typeIs(typ, "*types.Basic") && basicKind(cast(typ, "*types.Basic")) == types.UntypedNil) && arg2 == x && arg3 == iface.node && iface.typ == cast(ifaceOfCase(c.ctx, iface.node), "*types.Interface") && typ == typeOfSpec(c.ctx, x)
+
+// ---- C15: the 0o literal syntax is suggested only when the target version has it
+//@ func (*octalLiteralChecker).VisitExpr
+//@   prop C15
+//@   nosafety node shapes are the subject of the C01 sweep
+//@   astvalid
+//@   requires c != nil && ctxOK(c.ctx)
+//@   call (*octalLiteralChecker).warn requires @suggested-syntax-exists-in-target-version c.ctx.GoVersion.Major == 0 || c.ctx.GoVersion.Major > 1 || (c.ctx.GoVersion.Major == 1 && c.ctx.GoVersion.Minor >= 13)
